@@ -89,6 +89,18 @@ Fixpoint delivered (s : sh) (l : list (N * bool)) : list N :=
               if b then fst f :: delivered s' t else delivered s' t
   end.
 
+(* signed frames at the delivery level: signature verification, then the timestamp filter; a frame
+   whose signature does not verify leaves the filter untouched *)
+Fixpoint tdelivered (latest : Z) (l : list (Z * bool)) : list Z :=
+  match l with
+  | [] => []
+  | (t, verifies) :: r =>
+      if verifies then
+        let '(l', b) := tcheck latest t in
+        if b then t :: tdelivered l' r else tdelivered l' r
+      else tdelivered latest r
+  end.
+
 (* executable invariant checker used on implementation snapshots *)
 Definition sh_wf (s : sh) : bool := (hi s <? 4294967296) && (bm s <? 18446744073709551616).
 
